@@ -129,6 +129,9 @@ func snapshotBytes(f *kv.LFSM) ([]byte, error) {
 
 func run(c Case, o *vt.Obs) *vt.Failure {
 	a, b := newLFSM(), newLFSM()
+	// lag: a replica that misses every third update (a lagging follower); it is brought up to date only by installing snapshots
+	lag := newLFSM()
+	lagMissed := 0
 	model := map[string]mpair{}
 	index := uint64(0)
 	maxVer := uint64(0)
@@ -182,6 +185,13 @@ func run(c Case, o *vt.Obs) *vt.Failure {
 				return vt.Failf(prop+"/update-error", i, "%v", err)
 			}
 			resultsA = append(resultsA, res[0].Result)
+			if index%3 != 0 {
+				if _, err := lag.Update([]sm.Entry{{Index: index, Cmd: append([]byte(nil), cmd...)}}); err != nil {
+					return vt.Failf(prop+"/update-error", i, "lagging replica: %v", err)
+				}
+			} else {
+				lagMissed++
+			}
 			if !op.JoinB {
 				if f := flushB(); f != nil {
 					return f
@@ -320,6 +330,15 @@ func run(c Case, o *vt.Obs) *vt.Failure {
 				if err != nil || v.(kv.Pair) != (kv.Pair{Key: k, Value: p.Value, Ver: p.Ver}) {
 					return vt.Failf(prop+"/restore-differs", i, "restored store: get %q = %+v, %v; model %q ver %d", k, v, err, p.Value, p.Ver)
 				}
+			}
+			// install the snapshot into the lagging, NON-EMPTY replica (what raft does for a follower that fell behind): afterwards it
+			// must equal the snapshot exactly - nothing of its previous content may survive
+			if err := lag.RecoverFromSnapshot(bytes.NewReader(sa), nil, nil); err != nil {
+				return vt.Failf(prop+"/restore-error", i, "install into a non-empty replica: %v", err)
+			}
+			sl, err := snapshotBytes(lag)
+			if err != nil || !bytes.Equal(sl, sa) {
+				return vt.Failf(prop+"/restore-into-nonempty-differs", i, "a replica that had missed %d updates and then installed the snapshot holds %s, the snapshot is %s (err %v)", lagMissed, sl, sa, err)
 			}
 			var decoded map[string]kv.Pair
 			if err := json.Unmarshal(sa, &decoded); err != nil || len(decoded) != len(model) {
